@@ -376,7 +376,17 @@ func raceJudge(c *world.Case, o *world.Outcome) string {
 	if o.Extra != nil {
 		if rr, ok := o.Extra["race_report"].(string); ok && strings.Contains(rr, "/repo/") {
 			o.Detail = "data race reported by the race detector (reports do not replay by seed; the case does): " + firstLines(rr, 40)
-			return "data-race"
+			// The class names the first racing function inside bigslice, so that
+			// different races are different violations (and findings).
+			site := ""
+			for _, l := range strings.Split(rr, "\n") {
+				l = strings.TrimSpace(l)
+				if strings.HasPrefix(l, "github.com/grailbio/bigslice") {
+					site = strings.TrimSuffix(l[strings.LastIndex(l, "/")+1:], "()")
+					break
+				}
+			}
+			return "data-race@" + site
 		}
 	}
 	return ""
